@@ -34,12 +34,35 @@ inductive RouterExpr where
   | layer (r : RouterExpr) (l : Layer)
   deriving Repr
 
-/-- One arm of `match (self.config.disable_https, listener)` in `IpaHttpServer::start_on`. -/
+/-- One arm of `match (self.config.disable_https, listener)` in `IpaHttpServer::start_on`:
+what the arm passes to `spawn_server`. -/
 structure StartArm where
   disableHttps : Bool
   listener : Bool
-  headerLayer : Bool   -- installs `SetClientIdentityFromHeader`
-  tlsAcceptor : Bool   -- serves through `ClientCertRecognizingAcceptor` (rustls)
+  /-- the make-service handed to `spawn_server` is (a binding of) the traced router wrapped in
+  `SetClientIdentityFromHeader` — whether the wrapping is written in the arm or in a `let` before
+  the `match` -/
+  headerLayer : Bool
+  /-- the server handed to `spawn_server` accepts through `ClientCertRecognizingAcceptor` over
+  `from_tcp_rustls` / `bind_rustls` -/
+  tlsAcceptor : Bool
+  /-- `false`: the translator did not recognise the shape of this arm; the other fields are then the
+  fallback "what the property demands" so that the model stays executable (the translator item is
+  reported broken and the per-arm theorems fail) -/
+  recognised : Bool := true
+  deriving DecidableEq, Repr
+
+/-- How `rustls_config` treats client certificates (regenerated). -/
+structure TlsSetup where
+  /-- the trust anchors of the client verifier are exactly the certificates of the peers in the
+  server's `NetworkConfig` -/
+  anchorsFromPeers : Bool
+  /-- `.allow_unauthenticated()`: a client without certificate completes the handshake -/
+  clientAuthOptional : Bool
+  /-- `.with_client_cert_verifier(client_verifier)`: the server asks for a client certificate -/
+  verifierInstalled : Bool
+  /-- `false`: shape not recognised by the translator; the other fields are the fallback -/
+  recognised : Bool := true
   deriving DecidableEq, Repr
 
 end IpaVerif.Auth
